@@ -77,9 +77,10 @@ def parse_harnesses():
 # ----------------------------------------------------------------------------------------
 
 class Scratch:
-    def __init__(self, keep=False):
+    def __init__(self, keep=False, files=None):
         self.dir = os.path.join(SCRATCH_ROOT, "verif.%d" % os.getpid())
         self.keep = keep
+        self.files = files  # harness files to inject (None = all)
         self.repo = os.path.join(self.dir, "repo")
         self.hdir = os.path.join(self.dir, "harness")
         self.modpath = {}
@@ -130,8 +131,25 @@ class Scratch:
             for f in files:
                 if f.endswith(".rs"):
                     index.setdefault(f, []).append(os.path.join(root, f))
+        wanted = None
+        if self.files is not None:
+            # close the selection under the `//@@ needs:` declarations
+            wanted = set(self.files)
+            grew = True
+            while grew:
+                grew = False
+                for f in list(wanted):
+                    for line in open(os.path.join(self.hdir, f)):
+                        m = re.match(r"\s*//@@\s*needs:\s*(.*)$", line)
+                        if m:
+                            for n in m.group(1).replace(",", " ").split():
+                                if n not in wanted:
+                                    wanted.add(n)
+                                    grew = True
         for h in sorted(os.listdir(self.hdir)):
             if not h.endswith(".rs") or h == "support.rs":
+                continue
+            if wanted is not None and h not in wanted:
                 continue
             tgt = index.get(h)
             if not tgt or len(tgt) != 1:
@@ -212,6 +230,59 @@ def playback_tests(text):
         k = re.search(r"/// Check for `(\w+)`: \"(.*?)\"\n", src, re.S)
         out.append((k.group(1) if k else "?", k.group(2) if k else "?", src))
     return out
+
+
+SIZES = {"u8": 1, "i8": 1, "bool": 1, "u16": 2, "i16": 2, "u32": 4, "i32": 4, "f32": 4, "char": 4,
+         "u64": 8, "i64": 8, "f64": 8, "usize": 8, "isize": 8, "u128": 16, "i128": 16}
+
+
+def trace_playback_test(h, text):
+    """Kani prints no concrete-playback test for a failed *unwinding assertion*.  Rebuild one from CBMC's
+    trace (`--output-format old --cbmc-args --trace`): the nondet inputs are the return values of
+    kani::any_raw_internal::<T> / kani::any_raw_array::<T, N>, in call order."""
+    m = re.search(r"^Trace for [^\n]*\.unwind\.\d+:\n(.*?)(?=^Trace for |\Z)", text, re.S | re.M)
+    if not m:
+        return None
+    sec = m.group(1)
+    vals = []
+    cur = None  # (type, n) of the any_raw call we are inside
+    arr = None
+    for line in sec.split("\n"):
+        st = re.match(r"State \d+ .* function kani::any_raw_(internal|array)::<([\w]+)(?:, (\d+))?>", line)
+        if st:
+            ty, n = st.group(2), st.group(3)
+            if st.group(1) == "array":
+                key = ("array", ty, int(n))
+                if cur != key:
+                    cur = key
+                    arr = [bytes(SIZES.get(ty, 8))] * int(n)
+                    vals.append(arr)
+            else:
+                cur = ("scalar", ty, 1)
+            continue
+        rv = re.match(r"\s+goto_symex\$\$return_value\$\$\w*4kani\d+any_raw_(internal|array)\w*(?:\[(\d+)\])?=.*\(([01 ]+)\)\s*$", line)
+        if rv and cur:
+            bits = rv.group(3).replace(" ", "")
+            by = int(bits, 2).to_bytes(len(bits) // 8, "little")
+            if rv.group(1) == "array" and cur[0] == "array" and rv.group(2) is not None:
+                arr[int(rv.group(2))] = by
+            elif rv.group(1) == "internal" and cur[0] == "scalar":
+                vals.append(by)
+                cur = None
+    flat = []
+    for v in vals:
+        if isinstance(v, list):
+            flat.extend(v)
+        else:
+            flat.append(v)
+    if not flat:
+        return None
+    body = ",\n".join("        vec![%s]" % ", ".join(str(b) for b in v) for v in flat)
+    src = ("/// Test rebuilt from the CBMC trace of a failed unwinding assertion of harness `%s`\n"
+           "/// Check for `unwind`: \"loop bound exceeded\"\n"
+           "#[test]\nfn kani_concrete_playback_%s_unwind() {\n    let concrete_vals: Vec<Vec<u8>> = vec![\n%s,\n    ];\n"
+           "    kani::concrete_playback_run(concrete_vals, %s);\n}\n" % (h["id"], h["id"], body, h["id"]))
+    return ("unwind", "loop bound exceeded (unwinding assertion)", src)
 
 
 def classify(h, rc, timed_out, text, parsed):
@@ -297,6 +368,19 @@ def run_harness(h, scratch, slot, logdir):
            "failed": failed, "log": logpath}
     if status == "FAIL":
         res["playback"] = [t for t in playback_tests(text) if t[0] != "cover"]
+        if not res["playback"] and h["expect"] == "pass" and any(".unwind." in c["name"] for c in failed):
+            logpath3 = os.path.join(logdir, h["id"] + ".trace.log")
+            cmd = kani_cmd(h, scratch, tdir, playback=False)
+            if "--cbmc-args" in cmd:
+                cmd += ["--trace"]
+            else:
+                cmd += ["--output-format", "old", "--cbmc-args", "--trace"]
+            if "--output-format" not in cmd:
+                cmd[cmd.index("--cbmc-args"):cmd.index("--cbmc-args")] = ["--output-format", "old"]
+            run_capped(cmd, scratch.repo, cap * 3, logpath3)
+            t = trace_playback_test(h, open(logpath3, errors="replace").read())
+            if t:
+                res["playback"] = [t]
     return res
 
 
@@ -444,7 +528,7 @@ def main(argv):
     os.makedirs(outdir + "/logs")
     results = []
     aux_results = []
-    with Scratch(keep=a.keep) as sc:
+    with Scratch(keep=a.keep, files=sorted({h["file"] for h in sel})) as sc:
         log("[%s] tier=%s harnesses=%d scratch=%s" % (prop, a.tier, len(sel), sc.dir))
         if sel:
             # pre-build dependencies once, then clone the target dir per worker slot
